@@ -374,6 +374,111 @@ pub fn eval(c: &Case) -> (Vec<Finding>, Vec<String>) {
     (fs, outcomes)
 }
 
+// ------------------------------------------------------------------------------------------
+// histories: two ceremonies on ONE authenticator whose user-validation outcome changes between
+// them – consent given (or refused) earlier must not carry over
+
+#[derive(Clone, Debug, Serialize, Deserialize, PartialEq, Eq, Hash)]
+pub struct Pair {
+    pub first: (Op, bool, u8),
+    pub second: (Op, bool, u8),
+}
+
+/// user validation whose outcome is scripted per call
+#[derive(Clone)]
+struct SeqUv {
+    outcomes: Arc<std::sync::Mutex<Vec<UvOutcome>>>,
+    log: Log,
+}
+#[async_trait::async_trait]
+impl passkey_authenticator::UserValidationMethod for SeqUv {
+    type PasskeyItem = Passkey;
+    async fn check_user<'a>(&self, credential: Option<&'a Passkey>, presence: bool, verification: bool) -> Result<passkey_authenticator::UserCheck, passkey_types::ctap2::Ctap2Error> {
+        let o = self.outcomes.lock().unwrap().remove(0);
+        let (r, logged) = match o {
+            UvOutcome::Ok { presence: p, verification: v } => (Ok(passkey_authenticator::UserCheck { presence: p, verification: v }), Ok((p, v))),
+            UvOutcome::Err(b) => (Err(passkey_types::ctap2::Ctap2Error::try_from(b).unwrap_or(passkey_types::ctap2::Ctap2Error::OperationDenied)), Err(b)),
+        };
+        self.log.push(Event::CheckUser { cred: credential.map(|c| c.credential_id.to_vec()), up: presence, uv: verification, result: logged });
+        r
+    }
+    fn is_presence_enabled(&self) -> bool {
+        true
+    }
+    fn is_verification_enabled(&self) -> Option<bool> {
+        Some(true)
+    }
+}
+
+pub fn pairs() -> Vec<Pair> {
+    let mut singles = vec![];
+    for op in [Op::Make, Op::Get] {
+        for uv in [false, true] {
+            for outcome in 0..7u8 {
+                singles.push((op, uv, outcome));
+            }
+        }
+    }
+    let mut v = vec![];
+    for a in &singles {
+        for b in &singles {
+            v.push(Pair { first: *a, second: *b });
+        }
+    }
+    v
+}
+
+pub fn eval_pair(p: &Pair) -> (Vec<Finding>, String) {
+    let case = json!({"pair": p});
+    let mut fs = vec![];
+    let (store, _) = store_for(Op::Get, Content::MatchNoList);
+    let shared = Shared::new(store);
+    let log = Log::new();
+    let outcomes = Arc::new(std::sync::Mutex::new(vec![outcome_of(p.first.2), outcome_of(p.second.2), outcome_of(0)]));
+    let uv = SeqUv { outcomes, log: log.clone() };
+    let mut auth = Authenticator::new(Aaguid::new_empty(), Logging { inner: shared.clone(), log: log.clone() }, uv);
+    auth.set_make_credentials_with_signature_counter(true);
+    let mut class = String::new();
+    for (k, (op, uvreq, outcome)) in [p.first, p.second].into_iter().enumerate() {
+        let before = shared.recs();
+        let _ = log.take();
+        let r = par::catch(|| match op {
+            Op::Make => block_on(auth.make_credential(mc_request(RP, &[9, k as u8], None, false, true, uvreq, false, None))).map(|r| u8::from(r.auth_data.flags)).map_err(sc_byte),
+            Op::Get => block_on(auth.get_assertion(ga_request(RP, None, false, true, uvreq, false, None))).map(|r| u8::from(r.auth_data.flags)).map_err(sc_byte),
+        });
+        let after = shared.recs();
+        let c = Case { op, rk: false, up: true, uv: uvreq, cap: 2, presence_cap: true, outcome, pin: false, arc_mutex: false, level: 0, uvreq: 0 };
+        let ok = consent_ok(&c, true, uvreq);
+        let checked = log.snapshot().iter().any(|e| matches!(e, Event::CheckUser { .. }));
+        match r {
+            Err(pn) => fs.push(Finding::new(format!("history/op={op:?}/kind=panic"), pn, case.clone())),
+            Ok(Ok(flags)) => {
+                class.push('S');
+                if !ok {
+                    fs.push(Finding::new(format!("history/op={op:?}/kind=success-without-consent"), format!("ceremony #{k} succeeded although its own user-validation step did not give the required consent (earlier ceremony: {:?})", p.first), case.clone()));
+                }
+                if !checked {
+                    fs.push(Finding::new(format!("history/op={op:?}/kind=no-user-check"), format!("ceremony #{k} succeeded without calling the user-validation step"), case.clone()));
+                }
+                if let UvOutcome::Ok { presence, verification } = outcome_of(outcome) {
+                    if (flags & 1 != 0) != presence || (flags & 4 != 0) != verification {
+                        fs.push(Finding::new(format!("history/op={op:?}/kind=flags-untruthful"), format!("ceremony #{k}: flags {flags:#04x}, reported presence={presence} verification={verification}"), case.clone()));
+                    }
+                }
+            }
+            Ok(Err(_)) => {
+                class.push('E');
+                if ok {
+                    fs.push(Finding::new(format!("history/op={op:?}/kind=failure-despite-consent"), format!("ceremony #{k} failed although consent was given (earlier ceremony: {:?})", p.first), case.clone()));
+                } else if after != before {
+                    fs.push(Finding::new(format!("history/op={op:?}/kind=store-changed-without-consent"), format!("ceremony #{k}"), case.clone()));
+                }
+            }
+        }
+    }
+    (fs, format!("pair:{class}"))
+}
+
 pub fn run(ctx: &Ctx) -> Result<Run, String> {
     let cs = cases();
     let stats = par::sweep_cases(&cs, ctx.threads, |c, st| {
@@ -388,6 +493,15 @@ pub fn run(ctx: &Ctx) -> Result<Run, String> {
         st.sample(|| json!({"case": c, "contents": "all 6 store contents"}));
         st.findings_from(fs);
     });
+    let ps = pairs();
+    let st2 = par::sweep_cases(&ps, ctx.threads, |p, st| {
+        let (fs, class) = eval_pair(p);
+        st.case(p, true, &class);
+        st.count("ceremony_pairs_on_one_authenticator", 1);
+        st.findings_from(fs);
+    });
+    let mut stats = stats;
+    stats.merge(st2);
     let n = cs.len() as u64;
     let okc = stats.outcomes.iter().filter(|(k, _)| k.contains(":ok:")).map(|(_, v)| *v).sum::<u64>();
     if okc == 0 {
@@ -395,7 +509,7 @@ pub fn run(ctx: &Ctx) -> Result<Run, String> {
     }
     let mut run = Run::from_stats(
         "model_checking",
-        "complete product op x rk x up x uv x verification-capability x presence-capability x validation-outcome(7) x pin-auth x store kind, each with 6 store contents incl. two simultaneously matching credentials (CTAP2 level) plus userVerification(4) x op x capability x outcome at client level; a configuration is non-trivial when at least one of its ceremonies succeeded or was refused for a consent reason (0x27/0x2B)",
+        "complete product op x rk x up x uv x verification-capability x presence-capability x validation-outcome(7) x pin-auth x store kind, each with 6 store contents incl. two simultaneously matching credentials (CTAP2 level) plus userVerification(4) x op x capability x outcome at client level; plus all ordered pairs of (operation, uv requested, validation outcome) ceremonies on ONE authenticator (consent must not carry over); a configuration is non-trivial when at least one of its ceremonies succeeded or was refused for a consent reason (0x27/0x2B)",
         true,
         stats,
     );
@@ -407,6 +521,10 @@ pub fn run(ctx: &Ctx) -> Result<Run, String> {
 }
 
 pub fn replay(_ctx: &Ctx, case: &Value) -> Result<Vec<Finding>, String> {
+    if let Some(p) = case.get("pair") {
+        let p: Pair = serde_json::from_value(p.clone()).map_err(|e| format!("bad C04 pair: {e}"))?;
+        return Ok(eval_pair(&p).0);
+    }
     let c: Case = serde_json::from_value(case.clone()).map_err(|e| format!("bad C04 case: {e}"))?;
     Ok(eval(&c).0)
 }
